@@ -27,11 +27,11 @@ type c16ROA struct {
 }
 
 type c16Route struct {
-	V6    bool       `json:"v6"`
-	Addr  uint32     `json:"addr"`
-	Len   int        `json:"len"`
-	Path  []c03Seg   `json:"path"`
-	Local bool       `json:"local"` // locally originated / API-injected route: the source has no local AS (0)
+	V6    bool     `json:"v6"`
+	Addr  uint32   `json:"addr"`
+	Len   int      `json:"len"`
+	Path  []c03Seg `json:"path"`
+	Local bool     `json:"local"` // locally originated / API-injected route: the source has no local AS (0)
 }
 
 type c16Case struct {
